@@ -11,6 +11,8 @@ pub(crate) mod language;
 mod persistence;
 pub mod rustdoc;
 mod utils;
+#[cfg(pavex_verif)]
+pub use compiler::verif;
 
 /// The Rust toolchain used by `pavexc` to generate JSON docs, unless
 /// overridden by the user.
